@@ -164,19 +164,19 @@ theorem max_centered_bounded_raises_iff (eqs : List (V3 ℝ × ℝ)) (c : V3 ℝ
       · simpa using hle
 
 /-- unit cube `[-1,1]³`: the six unit normals; centre at the origin -/
-def cubeEqs : List (V3 ℝ × ℝ) :=
+def c13CubeEqs : List (V3 ℝ × ℝ) :=
   [(⟨1,0,0⟩, -1), (⟨-1,0,0⟩, -1), (⟨0,1,0⟩, -1), (⟨0,-1,0⟩, -1), (⟨0,0,1⟩, -1), (⟨0,0,-1⟩, -1)]
 
-example : ∀ e ∈ cubeEqs, V3.norm e.1 = 1 := by
+example : ∀ e ∈ c13CubeEqs, V3.norm e.1 = 1 := by
   intro e he
-  simp only [cubeEqs, List.mem_cons, List.not_mem_nil, or_false] at he
+  simp only [c13CubeEqs, List.mem_cons, List.not_mem_nil, or_false] at he
   rcases he with rfl | rfl | rfl | rfl | rfl | rfl <;>
     (rw [V3.norm_eq, V3.normSq_eq]; norm_num)
 
-example : ¬ ∃ e, maximalCenteredBoundedSphere cubeEqs ⟨0,0,0⟩ = .error e := by
-  rw [max_centered_bounded_raises_iff _ _ (by simp [cubeEqs])]
+example : ¬ ∃ e, maximalCenteredBoundedSphere c13CubeEqs ⟨0,0,0⟩ = .error e := by
+  rw [max_centered_bounded_raises_iff _ _ (by simp [c13CubeEqs])]
   rintro ⟨e, he, h⟩
-  simp only [cubeEqs, List.mem_cons, List.not_mem_nil, or_false] at he
+  simp only [c13CubeEqs, List.mem_cons, List.not_mem_nil, or_false] at he
   rcases he with rfl | rfl | rfl | rfl | rfl | rfl <;>
     (simp only [V3.dot_eq] at h; norm_num at h)
 
